@@ -174,3 +174,44 @@ Proof.
 Qed.
 
 
+
+(* The order inside handleReconnect: the calls are completed BEFORE any resubscribe is attempted, so the
+   clause does not depend on the resubscribes succeeding.  In any state reached after the reconnect
+   began in which a resubscribe step of handleReconnect is enabled - the allocation of a request
+   (ERcInflight s) or its send, successful or FAILING (ERcSend ok; on failure the hook returns the
+   error and the websocket client reconnects once more) - and in the state after that step, every
+   call that was outstanding before the reconnect has completed or has its response.  No hypothesis
+   about sends succeeding (no_rc_abort) is involved. *)
+Definition call_settled (w : wstate) (k : nat) (i : N) : Prop :=
+  (exists o, w_cpc w k = CGot i o \/ w_cpc w k = CDone i o) \/
+  (waiting_id (w_cpc w k) = Some i /\ (w_chan w k <> None \/ exists r, w_rpc w = RDeliver k r)).
+
+Lemma wrun_snoc evs : forall w w1 e w2, wrun evs w = Some w1 -> wstep w1 e = Some w2 -> wrun (evs ++ [e]) w = Some w2.
+Proof.
+  induction evs as [|a evs IH]; intros w w1 e w2 H1 H2; cbn in *.
+  - inversion H1; subst. rewrite H2. reflexivity.
+  - destruct (wstep w a) eqn:E; [|discriminate]. eapply IH; eauto.
+Qed.
+
+Definition resub_step (e : wev) : Prop := (exists s, e = ERcInflight s) \/ (exists ok, e = ERcSend ok).
+
+Theorem ws_reconnect_calls_before_resubscribe :
+  forall evs1 w1 w1' evs2 w2 e w3,
+    wrun evs1 winit = Some w1 -> wstep w1 EClear = Some w1' -> wrun evs2 w1' = Some w2 ->
+    resub_step e -> wstep w2 e = Some w3 ->
+    forall k i, waiting_id (w_cpc w1 k) = Some i -> call_settled w2 k i /\ call_settled w3 k i.
+Proof.
+  intros evs1 w1 w1' evs2 w2 e w3 H1 Hc H2 He H3 k i Hw.
+  assert (N2 : forall cs ss, w_hpc w2 <> HCalls cs ss).
+  { intros cs ss Eh. destruct He as [[s ->]|[ok ->]]; unfold wstep in H3; rewrite Eh in H3; discriminate. }
+  assert (N3 : forall cs ss, w_hpc w3 <> HCalls cs ss).
+  { intros cs ss Eh. destruct He as [[s ->]|[ok ->]]; unfold wstep in H3.
+    - destruct (w_hpc w2); try discriminate. destruct (nmem s ss0); [|discriminate].
+      unfold addInflightSub in H3. inversion H3; subst. cbn in Eh. discriminate.
+    - destruct (w_hpc w2); try discriminate. destruct ok; inversion H3; subst; cbn in Eh.
+      + destruct ss0; discriminate.
+      + discriminate. }
+  split.
+  - exact (ws_reconnect_completes _ _ _ _ _ H1 Hc H2 N2 k i Hw).
+  - exact (ws_reconnect_completes _ _ _ _ _ H1 Hc (wrun_snoc _ _ _ _ _ H2 H3) N3 k i Hw).
+Qed.
